@@ -8,6 +8,7 @@ enum { M_INVALID = 0, M_INIT = 1, M_PREOP = 2, M_OP = 3, M_STOP = 4 };
 
 struct NmtRun : NodeEnv {
     int m = M_INIT;                 // model mode
+    int rrMode = 0, rrReal = 0; bool rrHooked = false;   // application code in CONmtResetRequest (model side / real side)
     uint8_t consNode = 0; int prevHbState = 0; bool hbArmed = false; uint32_t hbMs = 0; int variant = 0; uint32_t rpdoId = 0;
     uint8_t syncCount = 0;
     // TPDO 0 may have an inhibit time: a trigger inside the window is deferred to its end - and must still respect the NMT gate then
@@ -66,9 +67,10 @@ struct NmtRun : NodeEnv {
         if (k == "start") { size_t mk = w.mark(); w.start(0); Fx fx = collect(mk); int old = m; if (m == M_INIT) m = M_PREOP; modeChanged(old); if (bootups(fx) != (old == M_INIT ? 1 : 0)) fail("bootup/start", "boot-up frames after CONodeStart: " + std::to_string(bootups(fx))); checkModeCb(fx, old, m, false, "CONodeStart"); }
         else if (k == "nmt") {
             uint8_t cs = (uint8_t)o.arg(0), tg = (uint8_t)o.arg(1); int dlc = (int)o.arg(2, 2); Frame f(0, (uint8_t)dlc, {cs, tg}); int old = m;
-            Fx fx = deliver(f); if (dlc < 2) { m = mode(); modeChanged(old); if (bootups(fx)) onReset(); return; }   // DLC < 2: not constrained
+            Fx fx = deliver(f); if (dlc < 2) { if (!rrReal) rrMode = 0; /* the script may have run in this unconstrained reaction */ m = mode(); modeChanged(old); if (bootups(fx)) onReset(); return; }   // DLC < 2: not constrained
             bool listens = m == M_PREOP || m == M_OP || m == M_STOP; bool mine = tg == nodeId || tg == 0; bool reset = false;
             if (listens && mine) { if (cs == 1) m = M_OP; else if (cs == 2) m = M_STOP; else if (cs == 128) m = M_PREOP; else if (cs == 129 || cs == 130) { m = M_PREOP; reset = true; } }
+            if (reset && rrMode) { m = rrMode; rrMode = 0; cov.hit("mode-set-from-inside-the-reset-request-callback"); }   // the application's CONmtResetRequest switched the freshly reset node on (or off) again: that is the mode it is in afterwards
             modeChanged(old); if (pending && old == M_OP && m != M_OP) cov.hit("left-operational-with-deferred-tpdo");
             if (listens) expectClaimed(fx, "NMT command"); else expectUnclaimed(fx, "NMT command");
             int rr = 0, rrType = 0; for (auto &e : fx.evs) if (e.kind == EV_RESETREQ) { rr++; rrType = (int)e.a; }
@@ -79,6 +81,7 @@ struct NmtRun : NodeEnv {
             if (listens && !mine) cov.hit("nmt-foreign-target"); if (listens && mine && !reset && m == old && (cs == 1 || cs == 2 || cs == 128)) cov.hit("nmt-same-state");
             if (listens && mine && !(cs == 1 || cs == 2 || cs == 128 || cs == 129 || cs == 130)) cov.hit("nmt-unknown-cs");
         }
+        else if (k == "rrscript") { int nm = (int)o.arg(0); if (nm != M_OP && nm != M_STOP) return; rrMode = nm; rrReal = nm; if (!rrHooked) { rrHooked = true; w.onResetRequest = [this](int) { if (!rrReal) return; int nm2 = rrReal; rrReal = 0; CONmtSetMode(&N()->Nmt, (CO_MODE)nm2); }; } return; }
         else if (k == "setmode") { int nm = (int)o.arg(0); if (m == M_INIT || m == M_INVALID || nm < M_PREOP || nm > M_STOP) return; size_t mk = w.mark(); int old = m; w.cur = 0; CONmtSetMode(&N()->Nmt, (CO_MODE)nm); m = nm; modeChanged(old); if (pending && old == M_OP && m != M_OP) cov.hit("left-operational-with-deferred-tpdo"); Fx fx = collect(mk); if (!fx.tx.empty()) fail("setmode/tx", "transmission on CONmtSetMode"); checkModeCb(fx, old, m, false, "CONmtSetMode"); }
         else if (k == "reset") { if (m == M_INVALID) return; size_t mk = w.mark(); int old = m; w.cur = 0; CONmtReset(&N()->Nmt, o.arg(0) ? CO_RESET_NODE : CO_RESET_COM); Fx fx = collect(mk); if (old != M_INIT) m = M_PREOP; if (bootups(fx) != (old != M_INIT ? 1 : 0)) fail("bootup/api-reset", std::to_string(bootups(fx)) + " boot-up frames after CONmtReset in mode " + std::to_string(old)); checkModeCb(fx, old, m, true, "CONmtReset"); onReset(); cov.hit("api-reset"); }
         else if (k == "stop") { if (m == M_INVALID) return; size_t mk = w.mark(); w.cur = 0; CONodeStop(N()); Fx fx = collect(mk); m = M_INVALID; modeChanged(M_OP); if (!fx.tx.empty()) fail("stop/tx", "transmission on CONodeStop"); cov.hit("node-stop"); }
@@ -170,6 +173,7 @@ Plan gen_nmt(Rng &r, bool thorough) {
     for (int i = 0; i < n; i++) {
         int c = (int)r.below(20);
         if (c < 6) p.ops.push_back(Op("nmt", {r.pick<int64_t>({1, 2, 128, 129, 130, 1, 2, 128, 0, 3, 127, 255}), r.pick<int64_t>({nid, nid, nid, 0, 0, nid + 1, nid - 1, 127}), r.chance(1, 12) ? (int64_t)r.below(2) : 2}));
+        else if (c == 6 && r.chance(1, 3)) { p.ops.push_back(Op("rrscript", {r.pick<int64_t>({3, 3, 4})})); if (r.chance(2, 3)) p.ops.push_back(Op("nmt", {r.pick<int64_t>({129, 130}), r.chance(1, 2) ? 0 : 1, 2})); }
         else if (c == 6) p.ops.push_back(Op("setmode", {r.range(2, 4)}));
         else if (c == 7) p.ops.push_back(r.chance(1, 2) ? Op("reset", {(int64_t)r.below(2)}) : Op("start"));
         else if (c == 8) { if (r.chance(1, 3)) { p.ops.push_back(Op("stop")); if (r.chance(2, 3)) { p.ops.push_back(Op("p_foreign", {0x123}, {1, 2, 3})); p.ops.push_back(Op("reinit")); p.ops.push_back(Op("start")); } } else p.ops.push_back(Op("p_lss", {(int64_t)r.below(2)})); }
